@@ -79,8 +79,22 @@ def small_cases(L, part, parts, types=None):
             yield c, (classes.get(tn) or tn), P
 
 
-def base_cases(shard, rng):
-    """Well-formed messages / structures that faults are injected into."""
+def base_cases(shard, rng, hostile=None):
+    """Well-formed messages / structures that faults are injected into.  ``hostile``: a recorder - hostile scenes (aborted,
+    abandoned, still-open decodes; vt/history.py) are then run in this process between the cases."""
+    if hostile is None:
+        yield from _base_cases(shard, rng)
+        return
+    from .. import history
+
+    hrng = random.Random(f"{shard.get('seed', 0)}:history:{shard.get('name')}")
+    for i, c in enumerate(_base_cases(shard, rng)):
+        if i % 5 == 2:
+            history.disturb(hrng, hostile, n=2)
+        yield c
+
+
+def _base_cases(shard, rng):
     big = False
     k = shard["kind"]
     if k == "msg":
